@@ -85,17 +85,20 @@ def decode_fdf(text):
 def run_fill(year, solver, version='0.2.1'):
     """emulate `habutax solve --solution f` + `habutax fill-pdfs f out` up to pdftk; returns dict"""
     from habutax import pdf_filler, forms as hforms, values as hvalues
+    import habutax
+    import tempfile
+    import types
     solution = solver.solution()
     solution['habutax'] = {'tax_year': year, 'version': version}
-    buf = io.StringIO()
-    solution.write(buf)
-    # read back as fill_pdfs does
-    sol2 = configparser.ConfigParser(interpolation=None)
-    sol2.read_file(io.StringIO(buf.getvalue()))
-    tax_year = sol2.getint('habutax', 'tax_year')
-    sol2.remove_section('habutax')
+    tmpd = tempfile.mkdtemp(prefix='hv-c19-')
+    path = os.path.join(tmpd, 'solution.ini')
+    with open(path, 'w') as fh:          # what `habutax solve --solution` does
+        solution.write(fh)
+    with open(path) as fh:
+        text = fh.read()
     calls, fdfs = [], {}
     orig_run = subprocess.run
+    made = {}
 
     def fake_run(cmd, check=True):
         calls.append(list(cmd))
@@ -106,18 +109,40 @@ def run_fill(year, solver, version='0.2.1'):
         class R:  # noqa: D401
             returncode = 0
         return R()
+
+    # the REAL `habutax.fill_pdfs` reads the file (its own reader construction, tax-year parsing, removal of the special
+    # section) and builds the REAL PDFFiller; only pdftk (subprocess.run) is replaced, and the filler object is kept
+    real_filler = pdf_filler.PDFFiller
+
+    class Keep(real_filler):
+        def __init__(self, sol, forms, output, flatten=False):
+            made['p'] = self
+            made['forms'] = forms
+            super().__init__(sol, forms, output, flatten=flatten)
     subprocess.run = fake_run
+    habutax.pdf_filler.PDFFiller = Keep
     exc = None
-    p = pdf_filler.PDFFiller(sol2, hforms.available_forms[tax_year], '/dev/null')
     try:
         try:
-            p.fill()
+            habutax.fill_pdfs(types.SimpleNamespace(solution=path, output='/dev/null', flatten=False))
         finally:
             subprocess.run = orig_run
+            habutax.pdf_filler.PDFFiller = real_filler
+            import shutil
+            shutil.rmtree(tmpd, ignore_errors=True)
     except BaseException as e:  # noqa: BLE001
         if isinstance(e, (KeyboardInterrupt, SystemExit)):
             raise
         exc = e
+    p = made.get('p')
+    tax_year = next((y for y, fs in hforms.available_forms.items() if fs is made.get('forms')), year if p is None else None)
+    if p is None:
+        # the reader itself failed: keep an (unfilled) filler over a faithful reading so that the checks can say what is missing
+        sol2 = configparser.ConfigParser(interpolation=None)
+        sol2.read_string(text)
+        sol2.remove_section('habutax')
+        p = real_filler(sol2, hforms.available_forms[year], '/dev/null')
+    buf = io.StringIO(text)
     return dict(filler=p, calls=calls, fdfs=fdfs, exception=exc, tax_year=tax_year, text=buf.getvalue())
 
 
@@ -135,6 +160,24 @@ def check_fill(year, solver, res):
             return probs          # the documented way to stop: not a violation
         probs.append(('fill-exception', f'fill raised {type(e).__name__}: {str(e)[:120]}'))
         return probs
+    # what the filler holds is what was solved: every value of the solution, read from the file the way the real
+    # fill_pdfs reads it, is the value the solver stored (the file layer must not reinterpret text: %, #, ;, blanks)
+    for name, val in solver._v.values.items():
+        try:
+            got = p._values[name]
+        except BaseException as e:  # noqa: BLE001
+            if isinstance(e, (KeyboardInterrupt, SystemExit)):
+                raise
+            probs.append(('value-lost:' + name, f'{name} = {val!r} was solved, the filler cannot read it back: {type(e).__name__}'))
+            break
+        import enum as _enum
+        if isinstance(val, _enum.Enum) or isinstance(got, _enum.Enum):
+            same = repr(got) == repr(val)       # enumeration classes are rebuilt per form object: compare class and member names
+        else:
+            same = got == val and type(got) is type(val)
+        if not same:
+            probs.append(('value-read:' + name, f'{name} was solved as {val!r}, the filler read {got!r} from the solution file'))
+            break
     # which forms, how often, which order
     expected = [f for f in p.forms if f.needs_filing(p._values)]
     expected_sorted = sorted(expected, key=lambda f: (f.jurisdiction, f.sequence_no))
@@ -182,7 +225,8 @@ def check_fill(year, solver, res):
 
 
 ADVERSARIAL = ['O\\Brien (Jr', 'a) /V (b', '((', '))', '\\', '\\\\(', "it's \"quoted\"", ')(', 'x' * 300,
-               '100% (approx)', 'back\\slash)', '(balanced)', '<< /T (x) >>', 'tab\there', 'semi;colon#hash']
+               '100% (approx)', 'back\\slash)', '(balanced)', '<< /T (x) >>', 'tab\there', 'semi;colon#hash',
+               'Bo%%b', '12 %(city)s Rd', 'NYPFL 0.455%']
 
 
 def adversarial_text(seed):
